@@ -12,6 +12,7 @@
   between two of its `pollApply` actions (`live = true` until its own commit, close or the next poll).
 -/
 import Proofs.MvccHist
+import Proofs.MvccPool
 namespace Props.C02
 open ZodbModel.Mvcc Proofs.Mvcc
 
@@ -66,6 +67,12 @@ theorem cache_coherent {s : Sys} (hr : Reachable s) {i : Nat} (hi : i < s.n)
     (hc : (s.insts i).cache oid = some e) :
     stateAt (vlog s) (s.insts i).start oid = some e :=
   Proofs.Mvcc.cache_coherent hr hi hl hc
+
+/-- FileStorage's reader pool: while a finisher holds the write lock (`writing`) no reader file is
+    handed out — the lock discipline behind clause (D): storage reads cannot happen inside a finish
+    section.  (Model: `ZodbModel.Mvcc.FilePool`, one action per `with self._cond:` block.) -/
+theorem pool_mutex {p : FilePool.Pool} (hr : FilePool.PReachable p) :
+    ¬ (p.writing = true ∧ 0 < p.out) := Proofs.Mvcc.FilePool.pool_mutex hr
 
 /-- the committed log only grows -/
 theorem log_grows {s s' : Sys} (a : Act) (h : step s a = .ok s') :
